@@ -33,6 +33,8 @@ pub const MAX_INTRA_SWITCHES: u64 = 3000;
 /// minimiser drops or merges caller threads
 pub const MAX_HELPERS: usize = 24;
 pub const HELPER_BASE: u32 = 1000;
+/// `to` of a switch-list entry that means "the process is killed here"
+pub const KILL: u32 = u32::MAX;
 /// a thread that has run this many ticks without a decision while somebody it might be spinning on is parked (a
 /// caller in the middle of a call, a library thread) reaches a decision point that prefers the others: code that
 /// busy-waits without a system call (std's channels do, briefly) must not hang a run
@@ -124,6 +126,11 @@ pub struct RunSpec {
     pub stack_depths: Vec<Vec<(u32, u32)>>,
     /// fault kind F10: per logical client, the number of CPUs its OS thread is allowed to run on (0 = unrestricted)
     pub cpu_limits: Vec<u32>,
+    /// this phase's process is killed (as by SIGKILL: no destructors, no flushes) when the run's step counter
+    /// reaches this value (0 = never); the files it wrote so far are what the next phase finds
+    pub kill_step: u64,
+    /// the next process incarnation of a chained run: fresh memory, same private disk
+    pub next: Option<Box<RunSpec>>,
 }
 
 /// restrict the calling thread to the first `n` CPUs of its current affinity mask (n = 0: leave it alone)
@@ -235,6 +242,11 @@ struct St {
     helper_pt: Vec<usize>,
     /// the last few baton holders, most recent last (scripted schedules: "back to whoever ran before")
     recent: Vec<usize>,
+    kill_now: bool,
+    /// a thread held back after a file operation: not eligible before this many calls have completed in the run
+    hold: Vec<u64>,
+    file_points: u64,
+    file_holds: u64,
     joins: u64,
     rescued: u64,
     in_call: Vec<Option<u32>>,
@@ -481,6 +493,43 @@ pub fn adopt_begin() -> Option<usize> {
     .flatten()
 }
 
+/// A path operation of the library (open / create / rename / unlink / stat ...) reached the disk seam: an event of
+/// its own on the thread's time line (like a blocking operation), and in PRNG-driven runs a place where the
+/// scheduler likes to stall the thread: with probability 0.35 it yields here and is held back until 1..100 more
+/// calls have completed in the run - a writer parked between creating a file and filling it, while others go on
+/// reading and writing the same file.
+pub fn file_op_point() {
+    let _ = T.try_with(|c| {
+        if c.mode.get() != tick::MODE_SIM || !c.in_call.get() || c.in_hook.get() {
+            return;
+        }
+        let sh = match shared() {
+            Some(s) => s,
+            None => return,
+        };
+        c.in_hook.set(true);
+        c.ticks.set(c.ticks.get() + 1);
+        let force = {
+            let mut st = sh.m.lock().unwrap();
+            st.file_points += 1;
+            if sh.spec.policy != Policy::Replay && st.done.len() > 1 && st.rng.chance(0.35) {
+                let me = c.me.get();
+                let n = [1u64, 4, 16, 40, 100][st.rng.below(5)];
+                st.hold[me] = st.calls + n;
+                st.file_holds += 1;
+                true
+            } else {
+                false
+            }
+        };
+        if force || c.ticks.get() >= c.wake.get() {
+            let wake = sh.decision(c.me.get(), c.call_no.get(), c.ticks.get(), Kind::Yield, c);
+            c.wake.set(wake);
+        }
+        c.in_hook.set(false);
+    });
+}
+
 /// pthread_join issued inside the library on an adopted thread: wait, as a scheduling decision, until that thread
 /// has left its start routine (the real join that follows then returns at once). glibc waits for the kernel's
 /// exit notification with a system call of its own, which the simulator cannot see: without this the joiner
@@ -600,7 +649,7 @@ impl St {
     fn eligible(&self, i: usize) -> bool {
         // a timed waiter can run when the scheduler lets its timer fire early, and in any case once virtual time has
         // passed its deadline (clock jumps of F8, or other timers, move the clock)
-        !self.done[i] && (self.blocked[i].is_none() || self.deadline[i].map_or(false, |d| self.allow_timers || d <= self.vmono))
+        !self.done[i] && self.hold[i] <= self.calls && (self.blocked[i].is_none() || self.deadline[i].map_or(false, |d| self.allow_timers || d <= self.vmono))
     }
 
     fn enc(&self, i: usize) -> u32 {
@@ -629,6 +678,12 @@ impl St {
     fn decide(&mut self, spec: &RunSpec, me: usize, pos: (u32, u32), kind: Kind) -> Option<usize> {
         let must_leave = matches!(kind, Kind::Exit | Kind::Blocked);
         let stay = if must_leave { None } else { Some(me) };
+        if self.hold.iter().any(|h| *h > self.calls) && (spec.policy == Policy::Replay || (must_leave && !(0..self.done.len()).any(|i| i != me && self.eligible(i)))) {
+            // held threads are released when nobody else can run (and a scripted schedule never holds anybody)
+            for h in self.hold.iter_mut() {
+                *h = 0;
+            }
+        }
         if self.deadline.iter().any(|d| d.is_some()) {
             // somebody is in a timed wait: may its timer fire now? Always when replaying (the list says who runs), and
             // whenever nobody could run otherwise
@@ -743,6 +798,10 @@ impl St {
                 }
                 if hp == pos {
                     self.sw_i += 1;
+                    if head.to == KILL {
+                        self.kill_now = true;
+                        return Some(me);
+                    }
                     let to = self.dec(head.to);
                     if to < n && to != me && self.eligible(to) {
                         return Some(to);
@@ -841,6 +900,21 @@ impl Shared {
         let delta = tick.saturating_sub(c.synced.get());
         c.synced.set(tick);
         st.step += delta.max(1);
+        let tick32k = tick.min(u32::MAX as u64) as u32;
+        if self.spec.policy != Policy::Replay && kind != Kind::Exit && self.spec.kill_step > 0 && st.step >= self.spec.kill_step {
+            // the process dies here, in the middle of whatever it was doing; the position goes into the switch list
+            let em = st.enc(me);
+            st.rec.push(Sw { thread: em, call: call_no, tick: tick32k, to: KILL });
+            st.log.u64(0xD1ED_0000 | me as u64);
+            st.kill_now = true;
+        }
+        if st.kill_now {
+            let mut rec = self.record(&st, "ok", None);
+            rec["killed"] = json!(true);
+            rec["start"] = json!(st.start);
+            rec["switches"] = Value::Array(st.rec.iter().map(|s| json!([s.thread, s.call, s.tick, s.to])).collect());
+            proc::item_finish(rec.to_string().as_bytes());
+        }
         let site = match kind {
             Kind::Boundary => BOUNDARY,
             Kind::Tick(s) => s,
@@ -873,6 +947,14 @@ impl Shared {
         st.cur_call[me] = call_no;
         let tick32 = tick.min(u32::MAX as u64) as u32;
         let next = st.decide(self.spec, me, (call_no, tick32), kind);
+        if st.kill_now {
+            st.log.u64(0xD1ED_0000 | me as u64);
+            let mut rec = self.record(&st, "ok", None);
+            rec["killed"] = json!(true);
+            rec["start"] = json!(st.start);
+            rec["switches"] = Value::Array(st.rec.iter().map(|s| json!([s.thread, s.call, s.tick, s.to])).collect());
+            proc::item_finish(rec.to_string().as_bytes());
+        }
         // the event log records what happened (switches, call completions), not how often the scheduler was
         // consulted: a PRNG-driven run and the replay of its switch list consult it at different ticks
         match next {
@@ -1176,7 +1258,7 @@ impl Shared {
             "sens": st.sens_calls,
             "pf": self.spec.policy.family(),
             "pn": self.spec.policy.name(),
-            "nt": self.n, "hl": st.helpers, "jn": st.joins, "tmo": st.timeouts, "slp": st.sleeps, "yld": st.yields,
+            "nt": self.n, "hl": st.helpers, "jn": st.joins, "fo": crate::disk::FILE_OPS.load(Ordering::Relaxed), "fp": st.file_points, "fh": st.file_holds, "tmo": st.timeouts, "slp": st.sleeps, "yld": st.yields,
             "mi": st.max_inflight,
         });
         if let Some(x) = violation {
@@ -1334,6 +1416,10 @@ pub fn run_child(pool: &Pool, spec: &RunSpec) -> ! {
         helpers: 0,
         helper_pt: vec![0; MAX_HELPERS],
         recent: Vec::with_capacity(16),
+        kill_now: false,
+        hold: vec![0; cap],
+        file_points: 0,
+        file_holds: 0,
         joins: 0,
         rescued: 0,
         in_call: vec![None; cap],
